@@ -261,8 +261,9 @@ static void c13Format(int maxLines) {
 }
 
 // C13 (c): vertex-name loader
-static void c13Names(int maxEdges) {
-    const std::vector<std::string> names = {"a", "b", "ab", "7", "#x"};
+static void c13Names(int maxEdges, bool punctuation) {
+    // base alphabet, or (second pass, shorter files) names that begin with characters other comment conventions use
+    const std::vector<std::string> names = punctuation ? std::vector<std::string>{"a", "%y", ";z", "!q", "//c", "@", "\"q\"", "-5", "#x"} : std::vector<std::string>{"a", "b", "ab", "7", "#x"};
     const std::vector<std::string> pre = {"", " ", "\t"};
     const std::string file = g_tmpdir + "/names.txt";
     std::vector<std::pair<size_t, size_t>> seq;
@@ -529,7 +530,7 @@ template <template <class...> class GT, class L> void c15Cuts(int maxLen) {
 
 // (b) arbitrary text: every token string up to a length over a 17-token alphabet
 static void c15Text(int maxLen, unsigned shard, unsigned shards) {
-    const std::vector<std::string> tok = {"0", "1", "2", "10", "-1", "123456789012", "+1", "1.5", "x", "#", " ", "\t", "\n", "\r", std::string(1, '\0'), "\xff", "# Vertex1 Vertex2 Label\n"};
+    const std::vector<std::string> tok = {"0", "1", "2", "10", "-1", "123456789012", "+1", "1.5", "x", "#", " ", "\t", "\n", "\r", std::string(1, '\0'), "\xff", "# Vertex1 Vertex2 Label\n", "4294967295", "4294967296", "-2147483649"};
     const std::string file = g_tmpdir + "/any.txt";
     std::vector<size_t> idx;
     unsigned long long counter = 0;
@@ -649,6 +650,158 @@ template <template <class...> class GT, class L> void c15Bytes(size_t maxLen) {
     rec_();
 }
 
+// ----------------------------------------------------------------------- size-threshold ("big") parts
+// Structured larger graphs: sizes and edge counts chosen to straddle the thresholds an implementation may
+// have (256 / 65536 vertex indices, 512 / 1024 / 2048 records, 4 KiB / 8 KiB / 64 KiB of file).
+template <class G> std::vector<std::pair<std::string, G>> bigGraphs(bool forText) {
+    using T = Tr<G>;
+    using L = typename T::Label;
+    std::vector<std::pair<std::string, G>> out;
+    auto add = [](G &g, unsigned i, unsigned j, long k) {
+        if constexpr (T::labelled) g.addEdge(i, j, LabelAlpha<L>::value(1 + (k % 2)));
+        else g.addEdge(i, j);
+        (void)k;
+    };
+    for (unsigned hub : {255u, 256u, 511u, 600u}) { // stars whose hub index has an 0xFF / 0x00 low byte
+        G g(hub + 3);
+        for (unsigned i = 0; i < hub + 3; i += 7) add(g, hub, i, i);
+        add(g, hub, hub, 1);
+        out.emplace_back("star out of vertex " + std::to_string(hub), g);
+    }
+    for (unsigned n : {23u, 33u, 46u, forText ? 100u : 72u}) { // complete digraphs: 529, 1089, 2116, 5184/10000 edges
+        G g(n);
+        long k = 0;
+        for (unsigned i = 0; i < n; ++i)
+            for (unsigned j = 0; j < n; ++j) add(g, i, j, k++);
+        out.emplace_back("complete graph with loops on " + std::to_string(n) + " vertices", g);
+    }
+    for (unsigned m : {511u, 512u, 513u, 1023u, 1024u, 1025u, 2047u, 2048u, 2049u}) { // exact record counts around block sizes
+        G g(m + 1);
+        for (unsigned i = 0; i < m; ++i) add(g, i, i + 1, i);
+        out.emplace_back("path with " + std::to_string(m) + " edges", g);
+    }
+    {
+        G g(70000); // vertex indices that need more than 16 bits
+        add(g, 65535, 65536, 0); add(g, 69999, 0, 1); add(g, 65536, 65536, 2);
+        out.emplace_back("indices around 65536", g);
+    }
+    return out;
+}
+
+template <template <class...> class GT, class L> void bigText() {
+    using G = GT<L>;
+    using T = Tr<G>;
+    const std::string file = g_tmpdir + "/big.txt";
+    auto graphs = bigGraphs<G>(true);
+    if constexpr (std::is_same<L, std::string>::value) { // few edges, very long labels: > 64 KiB of label text
+        G g(50);
+        for (unsigned i = 0; i < 40; ++i) g.addEdge(i, (i * 7 + 1) % 50, std::string(3000 + i, (char)('a' + i % 26)) + " tail");
+        graphs.emplace_back("40 edges with 3000-character labels", g);
+    }
+    for (auto &pr : graphs) {
+        const G &g = pr.second;
+        ++g_cases;
+        ++g_nontrivial;
+        breadcrumb(g_cfg + " big text round trip: " + pr.first);
+        std::string replay = "--part bigtext";
+        try {
+            if constexpr (!T::labelled) io::writeTextEdgeList(g, file);
+            else io::writeTextEdgeList(g, file, std::function<std::string(const L &)>(Codec<L>::to));
+            G h(0);
+            if constexpr (!T::labelled) h = io::loadTextEdgeList<GT, L>(file).first;
+            else h = io::loadTextEdgeList<GT, L>(file, std::function<L(const std::string &)>(Codec<L>::from)).first;
+            digestNum(h.getEdgeNumber());
+            if (h.getSize() > g.getSize()) { fail("c13.big", pr.first + ": loaded graph has more vertices than the original", replay); continue; }
+            h.resize(g.getSize());
+            if (h.getEdgeNumber() != g.getEdgeNumber() || !(h == g) || !(g == h))
+                fail("c13.big", pr.first + " (" + std::to_string(g.getEdgeNumber()) + " edges, file of " + std::to_string(readFile(file).size()) + " bytes): graph loaded back has " + std::to_string(h.getEdgeNumber()) +
+                                    " edges and is" + ((h == g) ? "" : " not") + " equal to the original", replay);
+        } catch (...) {
+            fail("c13.big", pr.first + ": text round trip threw " + outcomeName(classifyCurrentException()), replay);
+        }
+    }
+}
+
+static void decodeRecords(const std::string &bytes, size_t rec, size_t count, std::vector<std::pair<unsigned, unsigned>> &edges, size_t &size) {
+    size = 0;
+    for (size_t k = 0; k < count; ++k) {
+        unsigned a = 0, b = 0;
+        for (int t = 3; t >= 0; --t) { a = (a << 8) | (unsigned char)bytes[k * rec + t]; b = (b << 8) | (unsigned char)bytes[k * rec + 4 + t]; }
+        edges.emplace_back(a, b);
+        size = std::max<size_t>(size, std::max(a, b) + 1);
+    }
+}
+
+template <template <class...> class GT, class L> void bigBinary(bool cuts) {
+    using G = GT<L>;
+    using T = Tr<G>;
+    const std::string file = g_tmpdir + "/big.bin", cut = g_tmpdir + "/bigcut.bin";
+    const size_t rec = 8 + (T::labelled ? sizeof(L) : 0);
+    for (auto &pr : bigGraphs<G>(false)) {
+        const G &g = pr.second;
+        breadcrumb(g_cfg + " big binary: " + pr.first);
+        std::string replay = cuts ? "--part bigcuts" : "--part bigbin";
+        try {
+            writeBin<GT, L>(g, file);
+            std::string bytes = readFile(file);
+            if (!cuts) {
+                ++g_cases;
+                ++g_nontrivial;
+                digest(bytes);
+                std::string want;
+                for (auto e : g.edges()) {
+                    want += encodeIndex(e.first) + encodeIndex(e.second);
+                    if constexpr (T::labelled) want += encodeLE<L>(g.getEdgeLabel(e.first, e.second));
+                }
+                if (bytes.size() != g.getEdgeNumber() * rec) fail("c14.big", pr.first + ": file has " + std::to_string(bytes.size()) + " bytes for " + std::to_string(g.getEdgeNumber()) + " records of " + std::to_string(rec) + " bytes", replay);
+                else if (bytes != want) fail("c14.big", pr.first + ": file bytes differ from the little-endian records in edges() order", replay);
+                G h = loadBin<GT, L>(file);
+                if (h.getSize() > g.getSize()) { fail("c14.big", pr.first + ": loaded graph is larger than the original", replay); continue; }
+                h.resize(g.getSize());
+                if (h.getEdgeNumber() != g.getEdgeNumber() || !(h == g) || !(g == h))
+                    fail("c14.big", pr.first + " (" + std::to_string(g.getEdgeNumber()) + " records): graph loaded back has " + std::to_string(h.getEdgeNumber()) + " edges and is" + ((h == g) ? "" : " not") + " equal to the original", replay);
+                continue;
+            }
+            // cut offsets: every offset within 2 records of each multiple of 4096 bytes, of the file start and of its end
+            std::set<size_t> offs;
+            for (size_t base = 0; base <= bytes.size() + 4096; base += 4096)
+                for (long d = -2 * (long)rec; d <= 2 * (long)rec; ++d) {
+                    long o = (long)base + d;
+                    if (o >= 0 && (size_t)o <= bytes.size()) offs.insert((size_t)o);
+                }
+            for (long d = 0; d <= 2 * (long)rec && (size_t)d <= bytes.size(); ++d) offs.insert(bytes.size() - (size_t)d);
+            for (size_t off : offs) {
+                ++g_cases;
+                if (off % rec) ++g_nontrivial;
+                writeFile(cut, bytes.substr(0, off));
+                try {
+                    G h = loadBin<GT, L>(cut);
+                    size_t R = off / rec, size = 0;
+                    std::vector<std::pair<unsigned, unsigned>> edges;
+                    decodeRecords(bytes, rec, R, edges, size);
+                    std::string why;
+                    if (h.getSize() != size) why = "size " + std::to_string(h.getSize()) + ", expected " + std::to_string(size);
+                    else if (h.getEdgeNumber() != R) why = "edge number " + std::to_string(h.getEdgeNumber()) + ", expected " + std::to_string(R);
+                    else
+                        for (auto &e : edges)
+                            if (!h.hasEdge(e.first, e.second)) { why = "edge of a complete record missing"; break; }
+                    if (why.empty()) {
+                        size_t listed = 0;
+                        for (unsigned v = 0; v < size; ++v) listed += h.getOutNeighbours(v).size();
+                        size_t wantListed = 0;
+                        for (auto &e : edges) wantListed += (T::directed || e.first == e.second) ? 1 : 2;
+                        if (listed != wantListed) why = "neighbour lists hold " + std::to_string(listed) + " entries, expected " + std::to_string(wantListed);
+                    }
+                    if (!why.empty()) fail("c15.bigcut", pr.first + ": file of " + std::to_string(bytes.size()) + " bytes cut at byte " + std::to_string(off) + ": " + why, replay);
+                } catch (const std::exception &) {
+                } catch (...) { fail("c15.bigcut", pr.first + ": non-std exception at cut " + std::to_string(off), replay); }
+            }
+        } catch (...) {
+            fail(cuts ? "c15.bigcut" : "c14.big", pr.first + ": threw " + outcomeName(classifyCurrentException()), replay);
+        }
+    }
+}
+
 // ------------------------------------------------------------------------------ single-case replays
 template <template <class...> class GT, class L> int replayCut(const Args &args) {
     using G = GT<L>;
@@ -669,6 +822,10 @@ template <template <class...> class GT, class L> int runTyped(const std::string 
         if (g_prop == "C13") {
             if constexpr (std::is_same<L, NoLabel>::value || std::is_same<L, int>::value || std::is_same<L, double>::value || std::is_same<L, std::string>::value) c13RoundTrip<GT, L>(len);
         } else if constexpr (!std::is_same<L, std::string>::value) c14RoundTrip<GT, L>(len);
+    } else if (part == "bigtext") {
+        if constexpr (std::is_same<L, NoLabel>::value || std::is_same<L, int>::value || std::is_same<L, double>::value || std::is_same<L, std::string>::value) bigText<GT, L>();
+    } else if (part == "bigbin" || part == "bigcuts") {
+        if constexpr (!std::is_same<L, std::string>::value) bigBinary<GT, L>(part == "bigcuts");
     } else if (part == "cuts") {
         if constexpr (!std::is_same<L, std::string>::value) c15Cuts<GT, L>(len);
     } else if (part == "bytes") {
@@ -702,7 +859,7 @@ int main(int argc, char **argv) {
     rep.tier = args.get("tier", "quick");
     int rc = -1;
     if (part == "format") c13Format((int)args.getInt("len", 2));
-    else if (part == "names") c13Names((int)args.getInt("len", 3));
+    else if (part == "names") { c13Names((int)args.getInt("len", 3), false); c13Names(std::max(1, (int)args.getInt("len", 3) - 1), true); }
     else if (part == "unopenable") c14Unopenable();
     else if (part == "text") c15Text((int)args.getInt("len", 3), (unsigned)args.getInt("shard", 0), (unsigned)args.getInt("shards", 1));
     else if (part == "onetext" || part == "onefile" || part == "onenames") {
@@ -745,7 +902,7 @@ int main(int argc, char **argv) {
         TCFG("dir_float", LabeledDirectedGraph, float)
         TCFG("und_char", LabeledUndirectedGraph, char)
 #endif
-        if (rc == -1 && !(part == "roundtrip" || part == "cuts" || part == "bytes")) { fprintf(stderr, "config %s not in group %d\n", config.c_str(), GROUP); return 2; }
+        if (rc == -1 && !(part == "roundtrip" || part == "cuts" || part == "bytes" || part == "bigtext" || part == "bigbin" || part == "bigcuts")) { fprintf(stderr, "config %s not in group %d\n", config.c_str(), GROUP); return 2; }
         if (rc >= 0) return rc;
     }
     rep.count("cases", (long long)g_cases);
